@@ -189,7 +189,7 @@ def r2(ctx, R):
 
 
 @rule("C06.R3", "C06", "DOM", "edit order in set_value_from_key: targets, clear, store, node, input, recompute",
-      min_instances=7, also=("C05",))
+      min_instances=7, also=("C05", "C08",))
 def r3(ctx, R):
     """Top-level branch of CellsImpl.set_value_from_key: get_startnodes_from(node) (under the
     recalc option) precedes clear_value_at(key), which dominates _store_value(key, value),
